@@ -569,6 +569,7 @@ void Exec::do_post(Op &op, int opi) {
     int kind = op.kind == OP_IPUT ? K_IPUT : op.kind == OP_IGET ? K_IGET : K_BPUT;
     std::shared_ptr<UserBuf> ub; int req = NC_REQ_NULL;
     int rc = issue(op, opi, a, kind, ncid, ub, &req);
+    if (kind == K_BPUT && a.tail_hazard && rc == NC_EINSUFFBUF && a.exp_rc == NC_NOERR && c.o.check_rc) { free_buf(*ub); fail("rc", opi, "returned NC_EINSUFFBUF expected NC_NOERR (tail-only-reclaim: the attached buffer has enough free bytes, but they lie below a still pending entry)"); return; }
     rc_check(op, opi, rc, a.exp_rc, a.rc_any);
     if ((rc != NC_NOERR && !(rc == NC_ERANGE && a.exp_rc == NC_ERANGE)) || a.reqslot < 0) { free_buf(*ub); return; }   // (NC_ERANGE is not fatal: the request is posted)
     auto &tab = me.reqs[op.file]; if ((int)tab.size() <= a.reqslot) tab.resize(a.reqslot + 1);
@@ -610,7 +611,7 @@ void Exec::do_wait(Op &op, int opi, bool cancel) {
     std::sort(done.begin(), done.end()); done.erase(std::unique(done.begin(), done.end()), done.end());
     for (int s : done) {
         PendingReq &q = tab[s];
-        if (rc == NC_NOERR || !c.o.check_rc) {
+        if (rc == NC_NOERR) {   // (a wait that failed, e.g. after an injected fault, has not completed the request: its buffer may still be byte-swapped in place)
             if (q.kind == K_IGET && !cancel) { const MVar *v = nullptr; Op &pop = c.p->ops[q.opidx]; if (pop.snap && q.var < (int)pop.snap->vars.size()) v = &pop.snap->vars[q.var]; if (rc == NC_NOERR) check_get_buffer(q.opidx, *q.acc, *q.ub, v); }
             else if (q.kind != K_IGET) check_put_buffer(q.opidx, *q.ub);
         }
